@@ -1,4 +1,9 @@
-import RQ.Spec.Write
+import RQ.Lemmas.RoundTripFix
+import RQ.Lemmas.RoundTripNum
+import RQ.Lemmas.RoundTripLine
+import RQ.Lemmas.RoundTripHunk
+import RQ.Lemmas.RoundTripName
+import RQ.Lemmas.RoundTripPath
 /-! Helper lemmas for C12: the parser inverts the writer (numbers, names, lines, hunks, headers). -/
 namespace RQ.Write
 open RQ RQ.Parse
